@@ -33,6 +33,8 @@ func init() {
 	})
 }
 
+var c06acc banderwagon.Element
+
 func c06compressed(c *mon.Ctx, b []byte, cls string, rng *rand.Rand) {
 	snap := append([]byte(nil), b...)
 	// history: sometimes the same bytes are first decoded through the TRUSTED entry points; the untrusted decision
@@ -56,9 +58,11 @@ func c06compressed(c *mon.Ctx, b []byte, cls string, rng *rand.Rand) {
 	}
 	decs := []dec{
 		{"SetBytes", func() (*banderwagon.Element, error) {
-			var e banderwagon.Element
+			// the receiver is re-used across calls: it holds whatever the previous (failed or successful) decode left
+			e := &c06acc
 			err := e.SetBytes(b)
-			return &e, err
+			cp := *e
+			return &cp, err
 		}},
 		{"ReadPoint", func() (*banderwagon.Element, error) { return common.ReadPoint(bytes.NewReader(b)) }},
 		{"ReadPoint/1byte", func() (*banderwagon.Element, error) {
